@@ -22,9 +22,9 @@ SCRIPTS = {
 CTX = {'k': 1}
 
 BOUNDS = {
-    'quick': 'all operation sequences of length <= 3 over 33 operations (tree, no state merging) + final probe; '
+    'quick': 'all operation sequences of length <= 3 over 36 operations (tree, no state merging) + final probe; '
              'graph search over model states to closure (18 operations, listener lists <= 2 per name)',
-    'thorough': 'all operation sequences of length <= 4 over 33 operations (1.2 M histories); graph search to '
+    'thorough': 'all operation sequences of length <= 4 over 36 operations (1.2 M histories); graph search to '
                 'closure with listener lists <= 3 per name',
 }
 ASSUMPTIONS = ['callbacks are compared by identity; contexts are keyword dictionaries',
@@ -54,6 +54,9 @@ def alphabet():
         ops.append(['once', 'a', s, None])
     ops.append(['on', 'a', 'F0', None])     # a callable that is falsy (len 0)
     ops.append(['off', 'a', 'F0'])
+    ops.append(['on', 'a', 'M', None])      # a bound method: a new, equal object at every mention
+    ops.append(['once', 'a', 'M', None])
+    ops.append(['off', 'a', 'M'])
     return ops
 
 
@@ -86,7 +89,7 @@ class ModelEmitter(object):
         if cb is None:
             self.e[name] = []
         else:
-            self.e[name] = [r for r in self.e.get(name, []) if r['cb'] is not cb]
+            self.e[name] = [r for r in self.e.get(name, []) if r['cb'] != cb]
         return self
 
     def emit(self, name, *args):
@@ -100,8 +103,24 @@ class ModelEmitter(object):
         return self
 
     def canon(self, names_of):
-        return [[n, [[names_of[id(r['cb'])], sorted(r['ctx'].items()), r['once']] for r in self.e.get(n, [])]]
+        return [[n, [[cbname(r['cb'], names_of), sorted(r['ctx'].items()), r['once']] for r in self.e.get(n, [])]]
                 for n in NAMES]
+
+
+def cbname(cb, names_of):
+    if isinstance(getattr(cb, '__self__', None), Holder):
+        return 'M'
+    return names_of[id(cb)]
+
+
+class Holder(object):
+    """`holder.m` is a NEW bound-method object at every access: equal, not identical"""
+
+    def __init__(self, rec):
+        self.rec = rec
+
+    def m(self, *a, **k):
+        self.rec(*a, **k)
 
 
 class Falsy(object):
@@ -129,7 +148,13 @@ class World(object):
         for name, script in SCRIPTS.items():
             self.cbs[name] = self._recorder(name, script)
         self.cbs['F0'] = Falsy(self._recorder('F0', None))
+        self.holder = Holder(self._recorder('M', None))
         self.names_of = dict((id(v), k) for k, v in self.cbs.items())
+
+    def cb(self, name):
+        if name == 'M':
+            return self.holder.m        # a fresh bound method each time
+        return self.cbs[name]
 
     def _recorder(self, name, script):
         def cb(*args, **kwargs):
@@ -155,7 +180,7 @@ class World(object):
             finally:
                 self.depth -= 1
         elif kind in ('on', 'once'):
-            cb = self.cbs[op[2]]
+            cb = self.cb(op[2])
             if op[3] is None:
                 getattr(self.em, kind)(op[1], cb)
             else:
@@ -164,7 +189,7 @@ class World(object):
             if op[2] is None:
                 self.em.off(op[1])
             else:
-                cb = self_cb if op[2] == 'SELF' else self.cbs[op[2]]
+                cb = self_cb if op[2] == 'SELF' else self.cb(op[2])
                 self.em.off(op[1], cb)
         self.log.append(['#', kind])
 
